@@ -36,7 +36,6 @@ Lemma fin_leb_ninf : forall l, fin l -> (l <=? neg_infinity)%float = false.
 Proof.
   intros l H. apply fin_B in H. rewrite FP.leb_equiv, Prim2B_neg_infinity.
   destruct (FP.Prim2B l) as [s|s| |s m e Hb]; try discriminate; try reflexivity.
-  destruct s; reflexivity.
 Qed.
 Lemma nan_leb_l : forall v h, is_nan v = true -> (v <=? h)%float = false.
 Proof.
@@ -376,7 +375,7 @@ Lemma sigmoid_shape : forall A, antitone_arg A ->
        (quot 1%float (exp_fl (A x)) <=? quot 1%float (exp_fl (A y)))%float = true).
 Proof.
   intros A [AF AM]. split.
-  - intros x Hx. rewrite <- FR_one at 2.
+  - intros x Hx. rewrite <- FR_one.
     apply (quot_range 1%float fin_one one_posR one_inf). apply exp_nonneg. apply fin_not_nan. now apply AF.
   - intros x y Hx Hy Hxy.
     apply (quot_antitone 1%float fin_one one_posR one_inf).
@@ -420,7 +419,7 @@ Proof.
   destruct arg_steep_ok as [AF AM].
   assert (Q : forall x, in_domain x ->
            fin (quot 2%float (exp_fl (arg_steep x))) /\ 0 <= FR (quot 2%float (exp_fl (arg_steep x))) <= 2).
-  { intros x Hx. rewrite <- FR_two at 2.
+  { intros x Hx. rewrite <- FR_two.
     apply (quot_range 2%float fin_two two_posR two_inf). apply exp_nonneg, fin_not_nan. now apply AF. }
   split.
   - intros x Hx. destruct (Q x Hx) as [F R].
